@@ -521,6 +521,84 @@ func resendTimerHeartbeats(role string) {
 	}
 }
 
+// lateAnswer: the session says Logout (Logout or Stop, close timeout well above the wait) and the
+// peer stays silent for longer than the heartbeat interval plus tolerance before it reacts. While a
+// session waits for the answer to its own Logout it is not logged on: the peer's late Logout is the
+// answer (no second Logout, logout event, context cancelled after Stop), and anything else the
+// peer sends does not make it logged on again.
+func lateAnswer(role string, variant string) {
+	mode := "late-answer-" + variant
+	tags := []string{"role=" + role, "n=1"}
+	prop := "C15"
+	if variant == "logout-then-heartbeat" {
+		prop = "C06"
+	}
+	l, err := live.Start(live.Config{Role: role, Hb: 1, Buf: 10, CloseTimeout: 8 * time.Second})
+	if err != nil {
+		verdict(prop, mode, "setup", "fail: "+err.Error(), tags...)
+		return
+	}
+	defer l.Shutdown()
+	if !l.Logon(1) {
+		verdict(prop, mode, "logon", "fail: logon exchange did not complete", tags...)
+		return
+	}
+	t0 := time.Now()
+	if variant == "stop-then-logout" {
+		_ = l.Sess.Stop()
+	} else {
+		_ = l.Sess.Logout()
+	}
+	if _, ok := l.WaitType("5", 2*time.Second); !ok {
+		verdict(prop, mode, "own logout", "fail: no Logout was sent", tags...)
+		return
+	}
+	time.Sleep(time.Until(t0.Add(2700 * time.Millisecond))) // silence: more than N + tolerance + a checking period
+	before := len(l.Snapshot())
+	if variant == "logout-then-heartbeat" {
+		_ = l.Send(l.PeerMsg("0", ""))
+		time.Sleep(300 * time.Millisecond)
+		if l.Sess.IsLogged() {
+			verdict("C06", mode, "state", "fail: after its own Logout, 2.7 s of silence and a Heartbeat from the peer the session reports itself logged on, without any Logon", tags...)
+		} else {
+			verdict("C06", mode, "state", "ok", tags...)
+		}
+		return
+	}
+	tAns := time.Now()
+	_ = l.Send(l.PeerMsg("5", ""))
+	gotEvent := l.WaitEvent("logout", 1500*time.Millisecond)
+	cancelled := true
+	var cancelAfter time.Duration
+	if variant == "stop-then-logout" {
+		select {
+		case <-l.Sess.Context().Done():
+			cancelAfter = time.Since(tAns)
+		case <-time.After(1500 * time.Millisecond):
+			cancelled = false
+		}
+	}
+	time.Sleep(200 * time.Millisecond)
+	second := 0
+	for _, m := range l.Snapshot()[before:] {
+		if m.Type == "5" {
+			second++
+		}
+	}
+	switch {
+	case second > 0:
+		verdict("C15", mode, "answer", fmt.Sprintf("fail: %d further Logout(s) sent when the peer's answer arrived 2.7 s after the session's own Logout", second), tags...)
+	case !gotEvent:
+		verdict("C15", mode, "answer", "fail: the logout event was not signalled when the peer's answer arrived 2.7 s after the session's own Logout", tags...)
+	case !cancelled:
+		verdict("C15", mode, "answer", "fail: the context was not cancelled within 1.5 s of the peer's answer to the Logout sent by Stop (close timeout 8 s)", tags...)
+	case cancelAfter > time.Duration(slack):
+		verdict("C15", mode, "answer", fmt.Sprintf("fail: the context was cancelled only %s after the peer's answer", cancelAfter), tags...)
+	default:
+		verdict("C15", mode, "answer", "ok", tags...)
+	}
+}
+
 func main() {
 	tier := flag.String("tier", "quick", "quick|thorough")
 	outPath := flag.String("out", "-", "output")
@@ -566,6 +644,13 @@ func main() {
 	if *tier == "thorough" {
 		run(func() { silenceScenario("I", 40, "probe-only") })
 		run(func() { silenceScenario("A", 39, "probe-only") })
+	}
+	for _, role := range []string{"A", "I"} {
+		role := role
+		for _, v := range []string{"stop-then-logout", "logout-then-logout", "logout-then-heartbeat"} {
+			v := v
+			run(func() { lateAnswer(role, v) })
+		}
 	}
 	run(func() { resendTimerHeartbeats("A") })
 	run(func() { resendTimerHeartbeats("I") })
